@@ -122,7 +122,8 @@ inline std::string host(Rng& r, int* kind_out = nullptr, bool stable_only = true
       std::string s = lalpha(r, r.below(4)); s += r.pick(X); s += lalpha(r, r.below(4)); if (r.coin()) { s += r.pick(X); } if (r.coin()) s += ".com"; return s; }
     case HK_V4: return ipv4_spelling(r, (uint32_t)r.next(), false);
     case HK_V4ODD: return ipv4_spelling(r, r.chance(1, 3) ? (uint32_t)r.below(70000) : (uint32_t)r.next(), true);
-    case HK_V6: { std::array<uint16_t, 8> a; for (auto& x : a) x = r.chance(2, 5) ? 0 : (uint16_t)(r.coin() ? r.below(16) : r.next()); return "[" + ipv6_spelling(r, a) + "]"; }
+    case HK_V6: { static const uint16_t edge[] = {0x1, 0xF, 0x10, 0xFF, 0x100, 0xFFF, 0x1000, 0x1001, 0x7FFF, 0x8000, 0xFFFF, 0xA, 0xABCD};   // digit-count boundaries of the hex serialiser
+      std::array<uint16_t, 8> a; for (auto& x : a) x = r.chance(2, 5) ? 0 : (uint16_t)(r.chance(1, 3) ? r.pick(edge) : r.coin() ? r.below(16) : r.next()); return "[" + ipv6_spelling(r, a) + "]"; }
     case HK_EMPTY: return "";
     case HK_FORBIDDEN: { static const char F[] = {' ', '#', '<', '>', '[', ']', '^', '|', '%', 0x7f, 0x01, '"', '`', '{', '}', '!', '$', '&', '\'', '(', ')', '*', '+', ',', ';', '=', '_', '~'};
       std::string s = lalpha(r, r.below(5)); s.push_back(r.pick(F)); s += lalpha(r, r.below(5)); return s; }
@@ -262,7 +263,7 @@ inline const std::vector<std::string>& base_pool() {
       "file:///tmp/mock/path", "file:///C:/dir/file", "file://host/share/x", "file:", "file:///", "foo://host/p/q", "foo://host", "foo:/just/path", "foo:/", "foo://",
       "foo:///p", "foo:/.//p", "mailto:user@example.org", "data:text/plain,hi", "about:blank", "blob:https://example.org/uuid", "javascript:alert(1)", "foo:opaque?q#f",
       "foo:o ?q", "http://127.0.0.1/p", "http://[::1]:8080/", "https://xn--bcher-kva.example/", "http://example.org/a/b/?x#y", "foo://u:p@h:99/a/../b?c#d", "http://h/%2e%2E/x",
-      "file:///c:/", "file://localhost/C|/x", "a:b", "https://example.org//double//slash", "sc://ñ/x", "non-spec:/..//p", "http://h?", "http://h#", "http://h/?#"};
+      "file:///c:/", "file://localhost/C|/x", "foo:/.//a/b/c", "foo:/.//a/b?q#f", "non-spec:/.//x/y/", "foo:/a/b/../c/./d", "http://[1000:0:0:1::]:81/a/b", "ftp://0x7f.1/a/b/c", "a:b", "https://example.org//double//slash", "sc://ñ/x", "non-spec:/..//p", "http://h?", "http://h#", "http://h/?#"};
   return v;
 }
 
